@@ -182,7 +182,7 @@ theorem findSome_parts (f : Str) (labels : Labels) (hl : ∀ kv ∈ labels, clea
       | some (k, v) => if k = f then some v else none
       | none => none) = labels.lookup f := by
   induction labels with
-  | nil => simp [List.findSome?, splitFirst, List.lookup]
+  | nil => simp [splitFirst, List.lookup]
   | cons kv ls ih =>
     obtain ⟨k, v⟩ := kv
     have hk : cColon ∉ k := clean_colon (hl (k, v) (by simp))
